@@ -36,8 +36,8 @@ pub fn contexts(variant: u8) -> (Vec<(&'static str, Value)>, BTreeMap<String, V>
     let (ci, cj, cs, cb, cl, cls, cp, cm): (i64, i64, &str, bool, Vec<i64>, Vec<&str>, Vec<[i64; 2]>, [i64; 2]) = match variant % 4 {
         0 => (7, 0, "ctx", true, vec![3, 1, 2], vec!["b", "a", "c"], vec![[1, 2], [3, 4]], [5, 6]),
         1 => (0, 3, "", false, vec![], vec!["z"], vec![], [0, 1]),
-        2 => (-4, 9, "Hello World", true, vec![5, 5, 2, 8, 1], vec![], vec![[0, 0]], [2, 2]),
-        _ => (1, 1, "a", false, vec![4], vec!["Q", "q", "Abc"], vec![[9, 8], [7, 6], [5, 4]], [-1, 3]),
+        2 => (-4, 9, "H\u{e9}llo W\u{f6}rld", true, vec![5, 5, 2, 8, 1], vec![], vec![[0, 0]], [2, 2]),
+        _ => (1, 1, "a", false, vec![4], vec!["Q", "q", "\u{e4}bc"], vec![[9, 8], [7, 6], [5, 4]], [-1, 3]),
     };
     let (clv, clr) = ints(&cl);
     let (clsv, clsr) = strs(&cls);
